@@ -80,3 +80,15 @@ def lookup(name: str) -> int:
     if name == "bob":
         return 2
     raise UnknownAccount(name)
+
+
+class _LimitError(LedgerError):
+    """Internal: a transfer limit was exceeded (private name, not exported by ``from module import ...``)."""
+
+
+def transfer_limit(amount: int) -> int:
+    if amount > 1000:
+        raise _LimitError("limit")
+    if amount < 0:
+        raise _LimitError("negative")
+    return 1000 - amount
